@@ -152,3 +152,25 @@ Lemma plan_ops_nofile e name ops hd sin :
 Proof.
   intros H1 H2 H3 H4. cbn [plan_ops]. rewrite H1. destruct name; [contradiction|]. rewrite H3, H4. reflexivity.
 Qed.
+
+(* stdin iff no file operand: if every operand is empty or a (modelled) assignment, the stream is
+   the assignments in order followed by standard input *)
+Definition skipped_operand (e : env) (op : bytes) : Prop :=
+  op = [] \/
+  exists v raw val, noargvars e = false /\ parse_assign op = Some (v, raw) /\ operand_value raw = Some val /\ assign_ok v val = true.
+
+Definition is_assign (p : pev) : Prop := match p with PAssign _ _ => True | _ => False end.
+
+Lemma plan_ops_no_file_operand e : forall ops sin,
+  Forall (skipped_operand e) ops ->
+  exists assigns, Forall is_assign assigns /\
+    plan_ops e ops false sin = assigns ++ PFile b_dash :: map (PRec b_dash) sin.
+Proof.
+  induction ops as [|op ops IH]; intros sin H.
+  - exists []. split; [constructor|reflexivity].
+  - inversion H as [|x l Hop Hops]; subst. destruct (IH sin Hops) as (assigns & HA & HP).
+    destruct Hop as [->|(v & raw & val & H1 & H2 & H3 & H4)].
+    + exists assigns. split; [exact HA|]. rewrite plan_ops_empty. exact HP.
+    + exists (PAssign v val :: assigns). split; [constructor; [exact I|exact HA]|].
+      rewrite (plan_ops_assign e op ops false sin v raw val H1 H2 H3 H4), HP. reflexivity.
+Qed.
